@@ -56,6 +56,12 @@ def add_builds(rng, scn):
         else:
             runs[i]['sbuild'] = i
             fail['s%d' % i] = 1
+    # executors in different directories with textually identical build commands (a build = script + location)
+    if rng.random() < 0.35:
+        for r in runs:
+            r['file'] = r['exe'] % 2
+            if r.get('ebuild') is not None:
+                r['ebuild_text'] = 0
     scn['fail_builds'] = fail
     return scn
 
